@@ -232,7 +232,7 @@ FromJ(T, j) ==
          ELSE Err
 
 (************************* bounded value universes *************************)
-\* U: [ints, strs, maxlen, keys, ikeys, bits] - base domains for enumeration
+\* U: [ints, bools, strs, maxlen, keys, ikeys, bits] - base domains for enumeration
 RECURSIVE ProdSeq(_)
 ProdSeq(Ss) == IF Ss = <<>> THEN {<<>>} ELSE { <<h>> \o t : h \in Ss[1], t \in ProdSeq(Tail(Ss)) }
 RECURSIVE SeqsUpTo(_, _)
@@ -243,7 +243,7 @@ RECURSIVE Vals(_, _)
 Canonical(Ts, k, v) == \A h \in 1..(k - 1) : ~Is(Ts[h], ToJ(Ts[k], v))
 Vals(T, U) ==
   CASE T[1] = "int" -> { <<"i", n>> : n \in {m \in U.ints : InRange(T[2], m)} }
-    [] T[1] = "bool" -> { <<"b", TRUE>>, <<"b", FALSE>> }
+    [] T[1] = "bool" -> { <<"b", x>> : x \in U.bools }
     [] T[1] = "str" -> { <<"s", s>> : s \in U.strs }
     [] T[1] = "vec" -> { <<"seq", s>> : s \in SeqsUpTo(Vals(T[2], U), U.maxlen) }
     [] T[1] = "arr" -> { <<"seq", s>> : s \in ProdSeq([i \in 1..T[3] |-> Vals(T[2], U)]) }
